@@ -67,6 +67,7 @@ func c16(c *core.Check) {
 	c16InsertPositions(c)
 	c16ContainerClasses(c)
 	c16ClearedIsTested(c)
+	c16StableSorts(c)
 
 	dsc := p.Method("html/document", "drawContext", "drawStackingContext")
 	if dsc == nil {
